@@ -66,6 +66,13 @@ def matchQC (vals? : Option (List Nat)) (es : List Entry) : Bool :=
   | none => false
   | some vals => decide (checkProposal vals es = .accept)
 
+/-- A lookup of the validator set during which a storage read fails (`CreateSnapshot`, the snapshot reader's `Get` of
+the validator record, of the nominate / vote records) answers NO set, whatever the record holds: an unreadable
+record is not an unwritten one (`getValidatesByBlockId`, `getSnapshotKey` hand the error on; `GetLocalValidates`,
+`CalOldProposers` answer nil). -/
+def faultedLookup (failed : Bool) (s : Option (List Nat)) : Option (List Nat) :=
+  if failed then none else s
+
 /-- The certificate part of xpoa `CheckMinerMatch`: the justify certificate
 (declared view `view`, signature entries `es`) of a block whose predecessor's
 storage carries `preBits`. -/
